@@ -1,6 +1,7 @@
 package main
 
 import (
+	"bytes"
 	"encoding/base64"
 	"encoding/json"
 	"fmt"
@@ -55,11 +56,36 @@ func (c *tpCase) run() (v *hx.Violation) {
 		switch c.Via {
 		case "direct":
 			got, err = onnx.TensorFromProto(tp)
+			if after, _ := proto.Marshal(tp); !bytes.Equal(after, b) && v == nil {
+				v = mk("mutated-input", "TensorFromProto changed the TensorProto it decoded (it marshals to other bytes afterwards)")
+			}
+			if err == nil && v == nil {
+				// decoding the same proto again gives the same tensor
+				again, err2 := onnx.TensorFromProto(tp)
+				g1, _ := hx.FromG(got)
+				g2, _ := hx.FromG(again)
+				if err2 != nil || g1 == nil || g2 == nil {
+					v = mk("history-dependent", fmt.Sprintf("decoding the same TensorProto a second time fails: %v", err2))
+				} else if k, d := hx.CompareT(g2, g1, hx.Bits); k != "" {
+					v = mk("history-dependent", "decoding the same TensorProto a second time gives another tensor: "+d)
+				}
+			}
 		case "initializer":
 			tp.Name = "w"
 			g := &onnx.GraphProto{Name: "g", Initializer: []*onnx.TensorProto{tp}, Output: []*onnx.ValueInfoProto{hx.ValueInfoNoShape("w")}}
 			var m *gonnx.Model
-			m, err = gonnx.NewModelFromBytes(hx.Marshal(hx.Model(g, 13)))
+			// loaded from a proto the caller keeps: the proto is left as it is and can be loaded again
+			mp := hx.Model(g, 13)
+			before := hx.Marshal(mp)
+			m, err = gonnx.NewModel(mp)
+			if after := hx.Marshal(mp); !bytes.Equal(after, before) && v == nil {
+				v = mk("mutated-input", "NewModel changed the ModelProto the caller handed in (it marshals to other bytes afterwards)")
+			}
+			if err == nil && v == nil {
+				if _, err2 := gonnx.NewModel(mp); err2 != nil {
+					v = mk("history-dependent", "a second NewModel on the same ModelProto is refused: "+err2.Error())
+				}
+			}
 			if err == nil {
 				var outs gonnx.Tensors
 				outs, err = m.Run(gonnx.Tensors{})
